@@ -380,9 +380,17 @@ class FileModel:
         if self.indef(): return D.NC_EINDEFINE
         if o.get('all', 1) and self.mode == INDEP: return D.NC_EINDEP
         if not o.get('all', 1) and self.mode == COLL: return D.NC_ENOTINDEP
+        if o.get('slots') is not None:
+            sel = [p for p in self.pending if p.get('slot') in o['slots']]
+            if len(sel) != len(o['slots']): return D.NC_EINVAL_REQUEST
+            self._complete(sel); return 0
         self._complete(list(self.pending)); return 0
 
     def op_cancel(self, o):
+        if o.get('slots') is not None:
+            sel = [p for p in self.pending if p.get('slot') in o['slots']]
+            if len(sel) != len(o['slots']): return D.NC_EINVAL_REQUEST
+            self.pending = [p for p in self.pending if p not in sel]; return 0
         self.pending = []; return 0
 
     def op_sync(self, o):
